@@ -95,7 +95,7 @@ def program(draw):
                 T = draw(LEAF)
                 c['overrides'][pn] = {'kind': 'inherit-false', 'T': T, 'default': draw(specs.valid_value(T))}
             elif kind == 'limit' and Ts[pn]['k'] in ('double', 'int'):
-                c['overrides'][pn + '_max'] = {'kind': 'limit'}
+                c['overrides'][pn + '_max'] = {'kind': 'limit', 'hidden': draw(st.integers(0, 3)) == 0}     # (hidden: an internal limit)
         if draw(st.booleans()):
             # the command overridden by a plain method, or by a Command which does not inherit the properties
             c['overrides']['cmd'] = {'kind': draw(st.sampled_from(['method', 'method', 'cmd-inherit-false']))}
@@ -253,7 +253,7 @@ class World:
             elif o['kind'] == 'prop':
                 attrs['chan'] = o['value']
             elif o['kind'] == 'limit':
-                attrs[pn] = Limit()
+                attrs[pn] = Limit(export=False) if o.get('hidden') else Limit()
             else:
                 attrs[pn] = self.make_override(o)
         for p in c.get('new', []):
